@@ -1,63 +1,7 @@
-(* C04 driver.  argv[1] = cases, argv[2] = implementation output (the wall-clock second the
-   implementation ran in is read from it: "now=<unix>"), argv[3] = repaired | defective.
-   HMAC-SHA256 is implemented here and handed to the extracted model as the function H. *)
-
-(* ---- SHA-256 / HMAC on int lists (bytes) ---- *)
-let k256 = [|
-  0x428a2f98;0x71374491;0xb5c0fbcf;0xe9b5dba5;0x3956c25b;0x59f111f1;0x923f82a4;0xab1c5ed5;
-  0xd807aa98;0x12835b01;0x243185be;0x550c7dc3;0x72be5d74;0x80deb1fe;0x9bdc06a7;0xc19bf174;
-  0xe49b69c1;0xefbe4786;0x0fc19dc6;0x240ca1cc;0x2de92c6f;0x4a7484aa;0x5cb0a9dc;0x76f988da;
-  0x983e5152;0xa831c66d;0xb00327c8;0xbf597fc7;0xc6e00bf3;0xd5a79147;0x06ca6351;0x14292967;
-  0x27b70a85;0x2e1b2138;0x4d2c6dfc;0x53380d13;0x650a7354;0x766a0abb;0x81c2c92e;0x92722c85;
-  0xa2bfe8a1;0xa81a664b;0xc24b8b70;0xc76c51a3;0xd192e819;0xd6990624;0xf40e3585;0x106aa070;
-  0x19a4c116;0x1e376c08;0x2748774c;0x34b0bcb5;0x391c0cb3;0x4ed8aa4a;0x5b9cca4f;0x682e6ff3;
-  0x748f82ee;0x78a5636f;0x84c87814;0x8cc70208;0x90befffa;0xa4506ceb;0xbef9a3f7;0xc67178f2 |]
-let m32 = 0xFFFFFFFF
-let rotr x n = ((x lsr n) lor (x lsl (32 - n))) land m32
-let sha256 (msg : int list) : int list =
-  let len = List.length msg in
-  let padlen = let r = (len + 9) mod 64 in if r = 0 then 0 else 64 - r in
-  let total = len + 9 + padlen in
-  let b = Bytes.make total '\000' in
-  List.iteri (fun i x -> Bytes.set b i (Char.chr (x land 255))) msg;
-  Bytes.set b len '\128';
-  let bits = len * 8 in
-  for i = 0 to 7 do Bytes.set b (total - 1 - i) (Char.chr ((bits lsr (8 * i)) land 255)) done;
-  let h = [| 0x6a09e667;0xbb67ae85;0x3c6ef372;0xa54ff53a;0x510e527f;0x9b05688c;0x1f83d9ab;0x5be0cd19 |] in
-  let w = Array.make 64 0 in
-  for blk = 0 to total / 64 - 1 do
-    for t = 0 to 15 do
-      let g j = Char.code (Bytes.get b (blk * 64 + t * 4 + j)) in
-      w.(t) <- (g 0 lsl 24) lor (g 1 lsl 16) lor (g 2 lsl 8) lor g 3
-    done;
-    for t = 16 to 63 do
-      let s0 = rotr w.(t-15) 7 lxor rotr w.(t-15) 18 lxor (w.(t-15) lsr 3) in
-      let s1 = rotr w.(t-2) 17 lxor rotr w.(t-2) 19 lxor (w.(t-2) lsr 10) in
-      w.(t) <- (w.(t-16) + s0 + w.(t-7) + s1) land m32
-    done;
-    let a = ref h.(0) and bb = ref h.(1) and c = ref h.(2) and d = ref h.(3)
-    and e = ref h.(4) and f = ref h.(5) and g = ref h.(6) and hh = ref h.(7) in
-    for t = 0 to 63 do
-      let s1 = rotr !e 6 lxor rotr !e 11 lxor rotr !e 25 in
-      let ch = (!e land !f) lxor ((lnot !e) land m32 land !g) in
-      let t1 = (!hh + s1 + ch + k256.(t) + w.(t)) land m32 in
-      let s0 = rotr !a 2 lxor rotr !a 13 lxor rotr !a 22 in
-      let mj = (!a land !bb) lxor (!a land !c) lxor (!bb land !c) in
-      let t2 = (s0 + mj) land m32 in
-      hh := !g; g := !f; f := !e; e := (!d + t1) land m32;
-      d := !c; c := !bb; bb := !a; a := (t1 + t2) land m32
-    done;
-    h.(0) <- (h.(0) + !a) land m32; h.(1) <- (h.(1) + !bb) land m32;
-    h.(2) <- (h.(2) + !c) land m32; h.(3) <- (h.(3) + !d) land m32;
-    h.(4) <- (h.(4) + !e) land m32; h.(5) <- (h.(5) + !f) land m32;
-    h.(6) <- (h.(6) + !g) land m32; h.(7) <- (h.(7) + !hh) land m32
-  done;
-  List.concat_map (fun x -> [ (x lsr 24) land 255; (x lsr 16) land 255; (x lsr 8) land 255; x land 255 ]) (Array.to_list h)
-let hmac_sha256 (key : int list) (msg : int list) : int list =
-  let key = if List.length key > 64 then sha256 key else key in
-  let key = key @ List.init (64 - List.length key) (fun _ -> 0) in
-  let ipad = List.map (fun x -> x lxor 0x36) key and opad = List.map (fun x -> x lxor 0x5c) key in
-  sha256 (opad @ sha256 (ipad @ msg))
+(* C04 driver.  argv[1] = cases, argv[2] = implementation output, argv[3] = variant (optional).
+   Read from the implementation's output: the wall-clock second ("now=<unix>"), the cookies it issued (opaque
+   bytes), the session ids it chose, its verdicts where the property leaves the answer open.  The extracted model
+   decides admissibility (alloc_choice, ideal_validate, admissible_verdict2) and everything else exactly. *)
 
 (* ---- helpers ---- *)
 let ints_of_hex t = List.map int_of_n (bytes_of_hex t)
